@@ -2,7 +2,7 @@
    Statements only; proofs are in Proofs/DispatcherLemmas.v and (the query half, at the end
    of this file) Proofs/DispatcherQueryLemmas.v. *)
 From Coq Require Import Permutation Sorted.
-From Clikit Require Import Base.Prelude Model.Dispatcher Proofs.DispatcherLemmas Proofs.DispatcherQueryLemmas.
+From Clikit Require Import Base.Prelude Model.Dispatcher Proofs.DispatcherLemmas Proofs.DispatcherQueryLemmas Proofs.DispatcherOrderLemmas.
 
 (* For EVERY sequence of registrations, dispatches and queries, every dispatch,
    get_listeners(event) and has_listeners answer of the dispatcher model equals the answer
@@ -32,6 +32,32 @@ Theorem order_unique : forall {X} (R : X -> X -> Prop),
   forall l1 l2, StronglySorted R l1 -> StronglySorted R l2 -> Permutation l1 l2 -> l1 = l2.
 Proof. exact @sorted_perm_unique. Qed.
 Print Assumptions order_unique.
+
+(* The hypothesis of spec_order_sorted holds of every REACHABLE log (the i-th registration carries listener id i) ... *)
+Theorem reachable_logs_are_sorted : forall ops ev,
+  StronglySorted (fun a b => (r_prio a > r_prio b)%Z \/ (r_prio a = r_prio b /\ (r_lid a < r_lid b)%N))
+                 (sort_desc r_prio (regs_of (log_of ops) ev)).
+Proof. exact reachable_order. Qed.
+Print Assumptions reachable_logs_are_sorted.
+(* ... so, directly: the dispatch of ev after ANY history ops (registrations, dispatches, queries, in any order) calls
+   run_until_stop of the list L, where L holds exactly the registrations made so far for ev (no other event's listener;
+   one registered after an earlier dispatch included), each once, highest priority first and in registration order
+   among equal priorities - and L is the ONLY list with these properties. *)
+Theorem dispatch_after_any_history : forall ops ev,
+  let regs := log_of ops in
+  let L := sort_desc r_prio (regs_of regs ev) in
+  snd (dstep (dafter dinit ops) (Dispatch ev)) = OCalled (run_until_stop (spec_stops regs) (map r_lid L)) /\
+  Permutation L (regs_of regs ev) /\
+  (forall r, In r L <-> In r regs /\ r_ev r = ev) /\
+  NoDup (map r_lid L) /\
+  StronglySorted before L /\
+  (forall L', Permutation L' (regs_of regs ev) -> StronglySorted before L' -> L' = L).
+Proof. exact dispatch_characterized. Qed.
+Print Assumptions dispatch_after_any_history.
+(* NOT in the model: a dispatch of an event whose propagation was stopped BEFORE the dispatch (EventDispatcher checks
+   is_propagation_stopped() before each listener, so it calls nobody), and the arguments a listener is called with
+   (event, event name, dispatcher): Model/Dispatcher.v has Dispatch ev only: both are outside these theorems (and outside the tie unless harness/props/C12.py
+   observes them). *)
 
 (* Propagation: everything up to and including the first stopping listener, nothing after. *)
 Theorem stop_cuts : forall stops l1 x l2,
